@@ -428,11 +428,12 @@ class Controller(object):
         dirns = random_directions_within_bounds(num_steps, step_length, self.model.sl - xopt, self.model.su - xopt)
         # Make direction orthogonal
         Y = self.model.xpt_directions(include_kopt=False).T  # columns are the current set of directions
-        Q, R = LA.qr(Y, mode='economic')  # columns of Q are orthonormal basis for current set of directions
-        for k in range(Q.shape[1]):
-            qk = Q[:, k]
-            for j in range(dirns.shape[0]):
-                dirns[j, :] = dirns[j, :] - np.dot(dirns[j, :], qk) * qk
+        if Y.shape[1] < Y.shape[0]:  # (nothing is orthogonal to n or more directions: keep the random directions then)
+            Q, R = LA.qr(Y, mode='economic')  # columns of Q are orthonormal basis for current set of directions
+            for k in range(Q.shape[1]):
+                qk = Q[:, k]
+                for j in range(dirns.shape[0]):
+                    dirns[j, :] = dirns[j, :] - np.dot(dirns[j, :], qk) * qk
 
         # Evaluate the points
         for j in range(num_steps):
@@ -469,10 +470,11 @@ class Controller(object):
         dirn = random_directions_within_bounds(1, step_length, self.model.sl - xopt, self.model.su - xopt)[0, :]
         # Make direction orthogonal
         Y = self.model.xpt_directions(include_kopt=False).T  # columns are the current set of directions
-        Q, R = LA.qr(Y, mode='economic')  # columns of Q are orthonormal basis for current set of directions
-        for k in range(Q.shape[1]):
-            qk = Q[:, k]
-            dirn = dirn - np.dot(dirn, qk) * qk
+        if Y.shape[1] < Y.shape[0]:  # (nothing is orthogonal to n or more directions: keep the random direction then)
+            Q, R = LA.qr(Y, mode='economic')  # columns of Q are orthonormal basis for current set of directions
+            for k in range(Q.shape[1]):
+                qk = Q[:, k]
+                dirn = dirn - np.dot(dirn, qk) * qk
 
         return dirn * (step_length / LA.norm(dirn))
 
